@@ -93,6 +93,7 @@ func (x *Exec) instr(fr *Frame, in ssa.Instruction, st *State, reach Term) *Stat
 		addr := x.val(fr, t.Addr)
 		v := x.val(fr, t.Val)
 		x.storeVal(st, addr, v, reach, t.Pos())
+		x.storeAnchors(fr, t, st, reach)
 	case *ssa.BinOp:
 		fr.vals[t] = x.binop(fr, t, reach)
 	case *ssa.Convert:
